@@ -3004,7 +3004,9 @@ class MemoryObjectStore(PackCapableObjectStore):
                     # ``add_thin_pack`` already validates via
                     # ``PackStreamCopier.verify``; do the equivalent here.
                     p.check()
-                    for obj in PackInflater.for_pack_data(p, self.get_raw):
+                    # Inflate everything before adding anything, so that a
+                    # pack with a bad object is rejected as a whole.
+                    for obj in list(PackInflater.for_pack_data(p, self.get_raw)):
                         self.add_object(obj)
                 finally:
                     p.close()
